@@ -164,18 +164,12 @@ func (c *CopyCommand) copyOneFile(srcRelPath, destRelPath string, tow io.Writer)
 			"retry reading input files before copying")
 	}
 
-	var srcPlDif, destPlDif PointsList
-	if c.CopyNaN {
-		srcPlDif, destPlDif = srcTsList.Diff(destTsList)
-	} else {
-		srcPlDif, destPlDif = srcTsList.DiffExcludeSrcNaN(destTsList)
-	}
-	if srcPlDif.AllEmpty() && destPlDif.AllEmpty() {
-		return nil
-	}
-
-	if err := updateFileDataWithPointsList(destDB, srcPlDif, now); err != nil {
+	srcPlDif, err := copyPointsList(destDB, srcTsList, destTsList, c.ArchiveID, c.From, until, now, c.CopyNaN)
+	if err != nil {
 		return err
+	}
+	if srcPlDif.AllEmpty() {
+		return nil
 	}
 
 	if err := printFileData(tow, srcHeader, srcPlDif, true); err != nil {
@@ -186,6 +180,37 @@ func (c *CopyCommand) copyOneFile(srcRelPath, destRelPath string, tow io.Writer)
 		return err
 	}
 	return nil
+}
+
+// copyPointsList writes the points of srcTsList which differ from destDB,
+// archive by archive, and returns the written points.
+//
+// Updating an archive also propagates to the coarser archives, so the
+// difference of each archive is taken after the finer archives were written.
+// Otherwise a coarser point which was equal before the copy and is
+// overwritten by the propagation would be left different from the source.
+func copyPointsList(destDB *whispertool.Whisper, srcTsList, destTsList TimeSeriesList, archiveID int, from, until, now whispertool.Timestamp, copyNaN bool) (PointsList, error) {
+	written := make(PointsList, len(srcTsList))
+	for i := range srcTsList {
+		if i > 0 {
+			var err error
+			destTsList, err = fetchTimeSeriesList(destDB, archiveID, from, until, now)
+			if err != nil {
+				return nil, err
+			}
+		}
+		var srcPlDif PointsList
+		if copyNaN {
+			srcPlDif, _ = srcTsList.Diff(destTsList)
+		} else {
+			srcPlDif, _ = srcTsList.DiffExcludeSrcNaN(destTsList)
+		}
+		written[i] = srcPlDif[i]
+		if err := destDB.UpdatePointsForArchive(srcPlDif[i], i, now); err != nil {
+			return nil, err
+		}
+	}
+	return written, nil
 }
 
 func openOrCreateCopyDestFile(filename string, srcHeader *whispertool.Header) (*whispertool.Whisper, error) {
